@@ -102,6 +102,24 @@ def main(argv):
             R.violation('facts', 'bodies', 'anchor-missing', note='facts list %d bodies for crate %r (expected >= 160 for ppp)' % (len(raw['fns']), raw.get('crate')))
         ctx = Ctx(fx, R, tier, fx_rel)
         mod.run(ctx, R)
+        # what the value-flow analysis did with loops and calls on the way (per analysed entry point)
+        loops = {'unrolled': set(), 'accelerated': set(), 'widened': set()}
+        n_paths = n_calls = 0
+        for key, (ev, outs) in ctx.cache.items():
+            if ev is None:
+                continue
+            n_paths += len(outs or [])
+            n_calls += len(ev.call_sites)
+            for l in ev.unrolled:
+                loops['unrolled'].add('%s bb%s' % (l['fn'], l['header']))
+            for l in ev.accelerated:
+                loops['accelerated'].add('%s bb%s (%s)' % (l['fn'], l['header'], l['idiom']))
+            for l in ev.loops:
+                loops['widened'].add('%s %s' % (l['fn'], l['header']))
+        R.extra['entry_point_analyses'] = len(ctx.cache)
+        R.extra['guarded_outcomes'] = n_paths
+        R.extra['call_sites_resolved'] = n_calls
+        R.extra['loops'] = {k: sorted(v) for k, v in loops.items()}
         if tier == 'thorough' and not getattr(mod, 'NEEDS_REL', False):
             # thorough tier: the same rules on the release configuration's MIR (overflow checks and debug assertions off)
             raw2, secs2 = F.build_facts(cfg='rel')
